@@ -276,7 +276,7 @@ fn no_params(rep: &mut Report) {
 /// Error envelopes as a caller sees them: every member order (with and without insignificant white space, with
 /// an unknown extra member in every position) through `receive_reply`, `call_method`, a chain's reply stream
 /// and a generated proxy method must give the same error as decoding the object directly.
-fn error_orders(rep: &mut Report) {
+fn error_orders(rep: &mut Report, sample_every: usize) {
     use futures_util::StreamExt;
     #[derive(Debug, Clone, PartialEq)]
     enum Want {
@@ -293,6 +293,7 @@ fn error_orders(rep: &mut Report) {
         (vec![("error", "\"org.varlink.service.PermissionDenied\"".into()), ("parameters", "{}".into())], Want::Service(varlink_service::Error::PermissionDenied)),
         (vec![("error", "\"org.varlink.service.ExpectedMore\"".into()), ("parameters", "null".into())], Want::Service(varlink_service::Error::ExpectedMore)),
     ];
+    let mut nth = 0usize;
     for (members, want) in cases {
         let mut variants: Vec<Vec<(&str, String)>> = vec![members.clone()];
         for pos in 0..=members.len() {
@@ -305,6 +306,10 @@ fn error_orders(rep: &mut Report) {
             permutations(&base, &mut |p| perms.push(p.to_vec()));
             for p in perms {
                 for ws in [false, true] {
+                    nth += 1;
+                    if nth % sample_every != 0 {
+                        continue;
+                    }
                     let body: Vec<String> = p.iter().map(|(k, v)| if ws { format!(" \"{k}\" :\t{v} ") } else { format!("\"{k}\":{v}") }).collect();
                     let d = format!("{{{}}}", body.join(","));
                     let order: Vec<&str> = p.iter().map(|(k, _)| *k).collect();
@@ -444,7 +449,7 @@ pub fn run(cfg: &Cfg) -> Report {
             encode_case(&mut rep, "service::GetInterfaceDescription", varlink_service::Method::GetInterfaceDescription { interface: "org.example.x" }, set);
         }
         no_params(&mut rep);
-        error_orders(&mut rep);
+        error_orders(&mut rep, if cfg.layer == "miri" { 23 } else { 1 });
     }
     // (b) decode matrix, sharded by method type
     let types: Vec<(&str, Vec<(&str, &str)>)> = vec![
